@@ -49,6 +49,20 @@ def run(ctx):
         for r in subjects:
             reqs.append(("regexp %s %s" % (vlib.hx(txt.encode()), vlib.hx(r)), "regexp %s %s" % (RC.re_enc(e), vlib.hx(r)),
                          (txt, r, e)))
+    # names with multi-byte and with invalid UTF-8 against expressions that count characters: `.`, a class and a negated class
+    # consume one code point (two bytes of U+00E9, three of U+2028, four of U+1F600), each byte of an invalid sequence counts as one
+    tails = [b"a", b"\xc3\xa9", b"\xe2\x80\xa8a", b"\xf0\x9f\x98\x80", b"\xe2\x80", b"\xed\xa0\x80", b"\xc0\xaf", b"\xff", b"a\xcc\x81", b"\xe3\x80\x80x", b"ab", b"abc", b"abcd"]
+    dot, anyc, notslash, az = (".",), ("[", True, [(0, 0)]), ("[", True, [(47, 47)]), ("[", False, [(97, 122)])
+    for unit in (dot, anyc, notslash, az):
+        for k in range(1, 5):
+            e = RC.lit_re(b"refs/heads/")
+            for _ in range(k):
+                e = ("&", e, unit)
+            for var in (e, ("&", e, ("?", unit)), ("&", e, ("$",))):
+                txt = RC.re_text(var)
+                for tl in tails:
+                    r = b"refs/heads/" + tl
+                    reqs.append(("regexp %s %s" % (vlib.hx(txt.encode()), vlib.hx(r)), "regexp %s %s" % (RC.re_enc(var), vlib.hx(r)), (txt, r, var)))
     api = vlib.batch(ctx["bins"]["api"], [q[0] for q in reqs])
     mod = vlib.batch(ctx["modelrun"], [q[1] for q in reqs])
     for (a_req, m_req, extra), a, m in zip(reqs, api, mod):
@@ -59,7 +73,8 @@ def run(ctx):
             if RC.top_level_alt(e):
                 cls = "regexp-top-level-alternation"
             try:
-                judge = "true" if pyre.fullmatch(txt.encode(), r) else "false"
+                # (Go's matcher reads the name as UTF-8, one code point per `.` or class, an invalid byte counting as U+FFFD)
+                judge = "true" if pyre.fullmatch(txt, RC.go_str(r)) else "false"
             except pyre.error:
                 judge = None
             if judge is not None and a in ("true", "false") and a != judge:
